@@ -27,6 +27,11 @@ WORLD_A = {
             'per generated multi-client (model, configuration): sequential histories of 5-40 claim/release/other/peer ops issued by '
             'one driver task for 1-4 registered clients, alternating fault-free histories and histories with rogue releases and '
             'denied claims; distinct = distinct history digest; non-trivial = at least one out-event was delivered to a client port'),
+    'C11': ('C11', 'exploration', {'quick': (8, 600), 'thorough': (64, 20000)},
+            'per generated multi-client all-MTS (model, configuration): 2-3 client threads performing claim/use/release cycles '
+            'with retry, 1-2 peer threads raising requires out-events, under seeded schedules (uniform, sticky, PCT, round-robin, '
+            'dispatcher stalls) in a ThreadSanitizer build whose only visible synchronisation is the program\'s own; '
+            'distinct = distinct history digest; non-trivial = at least two claim windows opened in the run'),
     'C09': ('C09', 'fault_enumeration', {'quick': (32, 30), 'thorough': (480, 200)},
             'per generated (model, configuration): exhaustive product {dispatcher present?} x {runtime present?} x {0,1,2 other '
             'services} of the user locator (12 construction worlds), then seeded workloads in the world where construction must '
@@ -57,7 +62,10 @@ def dispatch(args):
             models = args.models
         if args.runs:
             runs = args.runs
-        return checkA.run_check(what, profile, level, tier, seed, models, runs, rule, ASSUME_A)
+        pre = None
+        if what == 'C11':
+            pre = lambda rep: c11_mutexwrapped(rep, tier, seed)   # noqa: E731
+        return checkA.run_check(what, profile, level, tier, seed, models, runs, rule, ASSUME_A, pre_finish=pre)
     if what == 'C12':
         from . import checkC12
         u, h = (16, 60) if tier == 'quick' else (240, 400)
@@ -77,6 +85,40 @@ def dispatch(args):
     return engine.EXIT_HARNESS
 
 
+def c11_mutexwrapped(rep, tier, seed):
+    """Second sub-world of C11: the generated MutexWrapped helper on its own (one binary per namespace prefix)."""
+    from . import checkMW
+    n = 1500 if tier == 'quick' else 40000
+    results = engine.run_parallel(checkMW.worker, [{'seed': seed, 'pi': pi, 'n': n} for pi in range(len(checkMW.PREFIXES))])
+    runs = steps = 0
+    digests, nontrivial, ilh = set(), set(), set()
+    probes = {}
+    sample = None
+    for status, s in results:
+        if status != 'ok':
+            rep.harness_errors.append(s)
+            continue
+        runs += s['runs']
+        steps += s['steps']
+        digests.update(s['digests'])
+        nontrivial.update(s['nontrivial'])
+        ilh.update(s['ilhashes'])
+        for k, v in s['probes'].items():
+            probes[k] = probes.get(k, 0) + v
+        sample = sample or s['sample']
+        for v in s['violations']:
+            rep.add_violation(v['class'], v['detail'], v['replay'])
+    cov = rep.coverage
+    cov['mutexwrapped_world'] = {'runs': runs, 'logical_steps': steps, 'distinct_histories': len(digests),
+                                 'runs_with_lock_contention': len(nontrivial), 'distinct_interleavings': len(ilh), 'probes': probes,
+                                 'rule': '2-3 threads, 1-5 critical sections each (read-yield-write increments), released by reset(), '
+                                         'scope exit, moved unique_ptr, or reset followed by re-acquisition; one TSan binary per namespace prefix'}
+    cov['evaluations'] = cov.get('evaluations', 0) + runs
+    cov['distinct_nontrivial'] = cov.get('distinct_nontrivial', 0) + len(nontrivial)
+    if sample:
+        cov['samples'] = list(cov.get('samples', [])) + [sample]
+
+
 def replay(prop, path):
     from . import profiles, tapes
     rp = json.load(open(path, encoding='utf-8'))
@@ -87,6 +129,9 @@ def replay(prop, path):
     if rp.get('world') == 'B' and rp.get('check') == 'C12':
         from . import checkC12
         return checkC12.replay(path)
+    if rp.get('world') == 'MW':
+        from . import checkMW
+        return checkMW.replay(path)
     if rp.get('world') == 'C':
         from . import checkC08
         return checkC08.replay(path)
